@@ -396,7 +396,7 @@ fn main() {
     cov.evaluations = all.get("evaluations") + all.get("render_evaluations");
     cov.traces_validated = all.get("states");
     cov.distinct_nontrivial = all.get("tagged_evaluations");
-    cov.rule = format!("layer A: BFS over commit / branch&checkout / checkout / merge(ff or true merge) from a one-commit repository, commits <= {nc}, extra branches <= {nb}: {} distinct shapes ({} used{}), {} explorer transitions; layer B: every placement of <= {tmax} tags from {:?} on any commits x HEAD at every branch tip and detached at every commit x date modes (increasing; decreasing, zig-zag and all-equal for merge shapes); layer C: every subset of <= {max_subset} of 8 names {:?} on one commit x 2 HEAD positions x 3 input formats; layer D: 22 work-tree states x {} baseline repositories; layer E: 11 branch names (with '/', '.', non-ASCII, equal to a version tag / a non-version tag / a ref-namespace word) x a tag of the same short name (absent, lightweight or annotated, on the middle commit or the tip) x HEAD on that branch / the other branch / detached x 3 input formats; layer F: checkouts whose .git is a file (linked worktree beside and nested inside the main work tree, separate git directory) clean and with an untracked file. Every state is materialised in real git by fast-import, conformance-checked with `git log --all` / `for-each-ref` / `symbolic-ref` / `status --porcelain=v2`, and judged against R-GIT (nearest validly tagged commit, highest tag under R-SV / C11 order (auto mode: highest under either format that accepts it), distance = |reach(HEAD) minus reach(tag)|, dirty, branch, hashes, times). non-trivial = evaluations that have a valid reachable tag", all_shapes.len(), shapes.len(), if quick { ": all with <= 3 commits plus the 4-commit merge shapes" } else { "" }, shape_transitions, alpha.iter().map(|a| a.0).collect::<Vec<_>>(), names8.iter().map(|a| a.0).collect::<Vec<_>>(), baselines.len());
+    cov.rule = format!("layer A: BFS over commit / branch&checkout / checkout / merge(ff or true merge) from a one-commit repository, commits <= {nc}, extra branches <= {nb}: {} distinct shapes ({} used{}), {} explorer transitions; layer B: every placement of <= {tmax} tags from {:?} on any commits x HEAD at every branch tip and detached at every commit x date modes (increasing; decreasing, zig-zag and all-equal for merge shapes); layer C: every subset of <= {max_subset} of 8 names {:?} on one commit x 2 HEAD positions x 3 input formats; layer D: 25 work-tree states x {} baseline repositories; layer E: 11 branch names (with '/', '.', non-ASCII, equal to a version tag / a non-version tag / a ref-namespace word) x a tag of the same short name (absent, lightweight or annotated, on the middle commit or the tip) x HEAD on that branch / the other branch / detached x 3 input formats; layer F: checkouts whose .git is a file (linked worktree beside and nested inside the main work tree, separate git directory) clean and with an untracked file. Every state is materialised in real git by fast-import, conformance-checked with `git log --all` / `for-each-ref` / `symbolic-ref` / `status --porcelain=v2`, and judged against R-GIT (nearest validly tagged commit, highest tag under R-SV / C11 order (auto mode: highest under either format that accepts it), distance = |reach(HEAD) minus reach(tag)|, dirty, branch, hashes, times). non-trivial = evaluations that have a valid reachable tag", all_shapes.len(), shapes.len(), if quick { ": all with <= 3 commits plus the 4-commit merge shapes" } else { "" }, shape_transitions, alpha.iter().map(|a| a.0).collect::<Vec<_>>(), names8.iter().map(|a| a.0).collect::<Vec<_>>(), baselines.len());
     cov.exhaustive = !was_capped;
     cov.samples = vec![json!({"ops":["branch b1","commit","checkout main","commit","merge b1"],"dates":"decreasing","tags":["v2.0.0@1","v1.0.0@0"],"head":"main"}), json!({"one_commit_tags":["v1.0.0","1.1.0rc1","1.1.0.post1"],"input_format":"auto"}), json!({"worktree":"IgnoredOnly","head":"detached"})];
     cov.set("clause_counts", all.to_json());
